@@ -262,6 +262,92 @@ def intersection(ctx, o):
         o.refute(f, f.node, 'final intersection', "the function does not return whether the id sets intersect")
 
 
+def _search_loop(g, pid):
+    """`for t in <all members>: if t.id == pid: return t` as the only loop of g -> (loop, verdict text or None)"""
+    loops = [n for n in walk_no_nested(g.node) if isinstance(n, ast.For)]
+    if len(loops) != 1 or not isinstance(loops[0].target, ast.Name):
+        return None
+    lp = loops[0]
+    tv = lp.target.id
+    if not (match("self._WBS__root.all_children", lp.iter) or match("self.tasks", lp.iter)):
+        return lp, "lookup does not search all members of the WBS"
+    if len(lp.body) != 1 or not isinstance(lp.body[0], ast.If) or lp.body[0].orelse or lp.orelse:
+        return None
+    iff = lp.body[0]
+    if not (match(f"{tv}.id == {pid}", iff.test) or match(f"{pid} == {tv}.id", iff.test)):
+        return lp, f"lookup matches `{src(iff.test)}` instead of `t.id == {pid}`: not exact"
+    if not (len(iff.body) == 1 and isinstance(iff.body[0], ast.Return) and isinstance(iff.body[0].value, ast.Name) and iff.body[0].value.id == tv):
+        return None
+    return lp, None
+
+
+def _loop_lookup(ctx, o, f, p) -> bool:
+    """the explicit-loop spelling of the lookup, in __getitem__ itself or in one private helper whose None result is turned
+    into the RuntimeError.  True when the form was recognised (verdicts recorded)"""
+    prog = ctx.prog
+    from sa.flow import Expander as _Ex
+    ex = _Ex(prog, f, ctx.typer, inline=False)
+    cfg = cfg_of(f)
+    r = _search_loop(f, p)
+    if r is not None:
+        lp, bad = r
+        if bad:
+            o.refute(f, lp, lp, bad)
+            return True
+        # after the loop only a raise may follow: every return of f is the one inside the loop
+        rets = [n for n in walk_no_nested(f.node) if isinstance(n, ast.Return)]
+        if len(rets) != 1:
+            o.refute(f, rets[-1], rets[-1], "lookup returns a value for a missing id instead of raising")
+        elif not any(isinstance(n, ast.Raise) for n in walk_no_nested(f.node)):
+            o.refute(f, f.node, 'missing id', "lookup returns None for a missing id instead of raising")
+        elif not all(facts.exc_name(x) == 'RuntimeError' for x in walk_no_nested(f.node) if isinstance(x, ast.Raise)):
+            o.refute(f, f.node, 'missing id', "a missing id does not end in RuntimeError")
+        else:
+            o.site(f, lp, "first member with t.id == id (search loop)")
+            o.site(f, f.node, "missing id -> RuntimeError after the loop")
+        return True
+    for c in [n for n in walk_no_nested(f.node) if isinstance(n, ast.Call)]:
+        g = ex._single_target(c)
+        if g is None or g is f or g.cls != f.cls or len(c.args) != 1 or not (isinstance(c.args[0], ast.Name) and c.args[0].id == p):
+            continue
+        gp = [x for x in g.params if x != g.self_name]
+        r = _search_loop(g, gp[0]) if len(gp) == 1 else None
+        if r is None:
+            continue
+        lp, bad = r
+        if bad:
+            o.refute(g, lp, lp, bad)
+            return True
+        # the helper's other returns are None; f raises on None and returns exactly the helper's result
+        others = [n for n in walk_no_nested(g.node) if isinstance(n, ast.Return) and not any(n is x for x in ast.walk(lp))]
+        if any(not (x.value is None or (isinstance(x.value, ast.Constant) and x.value.value is None)) for x in others):
+            o.refute(g, others[0], others[0], "the search helper returns a value that is not a member with the requested id")
+            return True
+        ok = True
+        for rt in [n for n in walk_no_nested(f.node) if isinstance(n, ast.Return) and n.value is not None]:
+            v = ex.expand(rt.value)
+            if not (isinstance(v, ast.Call) and ex._single_target(v) is g or same(v, c)):
+                o.refute(f, rt, rt, f"WBS[id] can return `{src(rt.value)}` which is not the result of the search over the current members")
+                ok = False
+                continue
+            conds = facts.node_conditions(prog, f, rt, ctx.typer, expand=True)
+            if not any(facts.cond_is(t, q, "$x is None", want=False) and same(facts.norm_cond(t, q)[0].left, v) for t, q in conds):
+                o.refute(f, rt, rt, "lookup returns None for a missing id instead of raising")
+                ok = False
+        raises = [x for x in walk_no_nested(f.node) if isinstance(x, ast.Raise)]
+        if ok and raises and all(facts.exc_name(x) == 'RuntimeError' for x in raises):
+            o.site(f, c, f"first member with t.id == id (search loop in {g.name})")
+            o.site(f, raises[0], "missing id (None from the search) -> RuntimeError")
+        elif ok:
+            o.refute(f, f.node, 'missing id', "a missing id does not end in RuntimeError")
+        from sa.effects import Effects as _Eff
+        for w in _Eff(prog, ctx.typer, ctx.cg).direct_writes(f) + _Eff(prog, ctx.typer, ctx.cg).direct_writes(g):
+            if w.root == 'self':
+                o.refute(f, w.node, w.node, f"lookup changes WBS state ({w.field}): later lookups depend on earlier ones")
+        return True
+    return False
+
+
 def lookup(ctx, o):
     prog = ctx.prog
     f = prog.func('wbs.WBS.__getitem__')
@@ -285,7 +371,9 @@ def lookup(ctx, o):
                 else:
                     o.refute(f, n, it, "lookup does not search all members of the WBS")
                     found = True
-    if not found:
+    if not found and _loop_lookup(ctx, o, f, p):
+        pass
+    elif not found:
         o.undecided(f, f.node, '__getitem__', "lookup in an unrecognised form")
     else:
         # every value returned must be the result of that search (a remembered task can go stale)
